@@ -59,8 +59,8 @@ DRIVERS = {
           "timeout": 300, "case_timeout": 30},
     "a": {"kind": "gotest", "pkg": "sdk/go/arvados", "test": "TestVerifC10", "isolate": True,
           "timeout": 300, "case_timeout": 30},
-    # same package and test as "m"; takes the few cases that can crash the process (known finding
-    # F10d) so that a crash disturbs only this small shard
+    # same package and test as "m"; takes the cases with 19-digit numbers (the ones that used to crash
+    # the process: F10a, F10d) so that a crash would disturb only this small shard
     "mx": {"kind": "gotest", "pkg": "sdk/go/manifest", "test": "TestVerifC10", "isolate": True,
            "timeout": 300, "case_timeout": 30, "shards": 2},
     "p": {"kind": "python", "script": "harness/py/c10_ranges_driver.py", "timeout": 300},
@@ -562,32 +562,19 @@ def compare(case, impl, model):
 
 def finding_of(case, impl, why):
     """Known finding, matched by the specific witness shape:
-    F10d  manifest package, a stream whose block sizes add up to 2^64 or more: the offsets array wraps around and the
-          segment iterator panics in its goroutine (process crash)"""
+    F10e  manifest package, a *zero-length* file token whose combined path path.Clean alters (exempt from the
+          canonical-path test) picks up the data of the sibling its cleaned path names: segment() holds more bytes
+          than the file tokens claim"""
     f = case.split(" ")
-    if len(f) < 2 or f[0] not in ("m.seg", "m.ext", "m.iter"):
+    if len(f) < 2 or f[0] != "m.seg":
         return None
     try:
         txt = unhex(f[1])
     except Exception:
         return None
-    if impl.startswith("CRASH") and _has_wrapping_stream(txt):
-        return "F10d"
+    if bool(why) and "partially applied" in why and _has_unclean_name(txt, only_empty=True):
+        return "F10e"
     return None
-
-
-def _has_wrapping_stream(txt):
-    """a line whose locator tokens (as the manifest package reads them) have sizes adding up to >= 2^64"""
-    for line in txt.split(b"\n"):
-        total = 0
-        for t in line.split(b" ")[1:]:
-            m = re.match(rb"^[0-9a-fA-F]{32}\+([0-9]+)(\+[A-Z][A-Za-z0-9@_-]*)*$", t)
-            if not m:
-                break
-            total += int(m.group(1))
-        if total >= 1 << 64:
-            return True
-    return False
 
 
 def go_unescape(tok):
@@ -604,14 +591,17 @@ def go_unescape(tok):
     return re.sub(rb"\\([0-9]{3}|\\)", rep, tok)
 
 
-def _has_unclean_name(txt):
-    """a line whose stream name + "/" + file name (as the manifest package unescapes them) is changed by path.Clean"""
+def _has_unclean_name(txt, only_empty=False):
+    """a line with a file token (a zero-length one if only_empty) whose stream name + "/" + file name (as the manifest
+    package unescapes them) is changed by path.Clean"""
     for line in txt.split(b"\n"):
         toks = line.split(b" ")
         sname = go_unescape(toks[0])
         for t in toks[1:]:
             parts = t.split(b":", 2)
             if len(parts) == 3 and parts[0].isdigit() and parts[1].isdigit():
+                if only_empty and int(parts[1]) != 0:
+                    continue
                 p = sname + b"/" + go_unescape(parts[2])
                 comps = p.split(b"/")
                 if comps[0] != b"." or any(c in (b"", b".", b"..") for c in comps[1:]):
@@ -805,6 +795,11 @@ def mutate(rng, txt):
         pre = t.rsplit(b":", 1)[0] + b":" if b":" in t else b"0:0:"
         toks[ti] = pre + rng.choice([b".", b"..", b"a//b", b"/a", b"a/", b"", b"a/./b", b"a/../b", b"../x", b"\\056",
                                      b"\\056\\056", b"a\\057\\057b", b"x\\", b"x\\\\y", b"x\\400", b"x\\08", b"x\\189"])
+    elif kind == 9 and rng.random() < 0.5 and b":" in t and ti > 0:
+        # an extra zero-length token whose name is a non-canonical spelling of this token's name
+        nm = t.split(b":", 2)[2] if t.count(b":") >= 2 else b"x"
+        alias = rng.choice([b"./" + nm, nm + b"/.", b"zz/../" + nm, nm + b"/", b"/" + nm, b".//" + nm])
+        toks.insert(rng.randint(ti, len(toks)), b"%d:0:%s" % (rng.choice([0, 0, 1]), alias))
     elif kind == 9:
         pos = rng.randrange(len(t) + 1)
         toks[ti] = t[:pos] + rng.choice([b"\t", b"\r", b"\x00", b":", b"+", b"\\", b"\x7f", b"G", b"A"]) + t[pos:]
